@@ -1,6 +1,7 @@
 """C29 — package database updates are crash-consistent (publish/remove discipline)."""
 import ast
 
+from ..core import generic as G
 from ..core import astutil as A
 from ..core import match as M
 from ..core.model import dotted
@@ -214,6 +215,12 @@ def run(ctx):
     bu = P.func(B, "uninstall.finalize_data")
     ctx.check("R5", bu, [A.unparse(c.func) for c in A.calls(bu.node) if dotted(c.func) != "discern_loc"] == ["os.unlink"], "binpkg-uninstall-single-unlink", "binpkg uninstall is one unlink")
     ctx.floor("R5", 6)
+
+    # ---- R6 the rename that lists the package is the last thing written to its entry -------------------------------
+    for q in ("install.finalize_data", "replace.finalize_data"):
+        G.publication(ctx, "R6", "pkgcore.vdb.repo_ops", q, {"self:install_path"}, "the installed-package entry")
+    G.publication(ctx, "R6", B, "install.finalize_data", {"self:final_path"}, "the binary package")
+    ctx.floor("R6", 3)
 
 
 FV = "src/pkgcore/vdb/repo_ops.py"
